@@ -782,6 +782,61 @@ func (a *Analysis) CheckC16(rep *Report) {
 	rep.Counts["files"] = nfiles
 	check := func(key string, fn *ssa.Function, paths []*Path, decode bool) {
 		for _, p := range paths {
+			// objects made on this path that leave it (returned, or stored into memory that outlives the call) take what
+			// their fields hold with them: a view of the buffer kept in a field of a fresh wrapper object is a view kept
+			// by the message. Closure over the path's final memory.
+			if decode {
+				leaving := map[string]*Val{}
+				var note func(v *Val)
+				note = func(v *Val) {
+					if v == nil {
+						return
+					}
+					v.Walk(func(x *Val) bool {
+						if (x.Op == "alloc" || x.Op == "makeslice") && leaving[x.Key()] == nil {
+							leaving[x.Key()] = x
+						}
+						return true
+					})
+				}
+				for _, rv := range p.Ret {
+					note(rv)
+				}
+				walkEvents(p.Events, func(e *Event, _ int) {
+					if e.Kind == EvStore {
+						note(e.Src)
+					}
+				})
+				for changed := len(leaving) > 0; changed; {
+					changed = false
+					for _, me := range p.Mem {
+						r := addrRoot(me.Addr)
+						if r == nil || leaving[r.Key()] == nil || me.V == nil {
+							continue
+						}
+						n := len(leaving)
+						note(me.V)
+						if len(leaving) != n {
+							changed = true
+						}
+					}
+				}
+				mkeys := make([]string, 0, len(p.Mem))
+				for k := range p.Mem {
+					mkeys = append(mkeys, k)
+				}
+				sort.Strings(mkeys)
+				for _, k := range mkeys {
+					me := p.Mem[k]
+					r := addrRoot(me.Addr)
+					if r == nil || leaving[r.Key()] == nil {
+						continue
+					}
+					if al := aliasIn(me.V); al != nil {
+						rep.Ob("Z1-no-alias-escapes", key+":fresh-object:"+me.Addr.Pretty(), false, a.P.Pos(fn.Pos()), "an object made by this call and handed on (returned or stored into the message) keeps a view of the buffer in "+me.Addr.Pretty()+" ("+al.Pretty()+")")
+					}
+				}
+			}
 			for i, rv := range p.Ret {
 				if al := aliasIn(rv); al != nil {
 					rep.Ob("Z1-no-alias-escapes", fmt.Sprintf("%s:ret%d", key, i), false, a.P.Pos(fn.Pos()), "returned value "+rv.Pretty()+" shares memory with the buffer ("+al.Pretty()+")")
